@@ -150,7 +150,7 @@ pub(crate) mod verif_probe {
     struct RefTruth { status: u8, copy_in: bool, dirty_set: bool, role_set: bool, sql_prepared: bool, named: usize, unsynced: bool }
     struct RefReq { g: u64, conn: usize, phase: u8, bytes: Vec<u8>, delivered: Vec<Vec<u8>>, before: RefTruth, status_after: u8 }
     #[derive(Default)]
-    struct RefLog { reqs: Vec<RefReq>, clock: u64, phase: u8, conns: usize }
+    struct RefLog { reqs: Vec<RefReq>, clock: u64, phase: u8, conns: usize, statuses: std::collections::VecDeque<u8> }
     type SharedLog = Arc<Mutex<RefLog>>;
 
     fn hexs(b: &[u8]) -> String { b.iter().map(|x| format!("{:02x}", x)).collect() }
@@ -236,7 +236,11 @@ pub(crate) mod verif_probe {
                                         deliver.push(pmsg(b'C', b"SELECT 1\0"));
                                     }
                                 }
-                                if !copy_started { deliver.push(pmsg(b'Z', &[t.status])); }
+                                if !copy_started {
+                                    // scripted status reports ("every server status at that instant"): consumed in order by every simple query
+                                    { let mut l = log.lock(); if l.phase != 0 && l.phase != 2 { if let Some(st) = l.statuses.pop_front() { t.status = st; } } }
+                                    deliver.push(pmsg(b'Z', &[t.status]));
+                                }
                             }
                             b'P' | b'B' | b'D' | b'E' | b'C' | b'H' => {
                                 t.unsynced = true;
@@ -313,6 +317,17 @@ pub(crate) mod verif_probe {
             settings.plugins = Some(crate::config::Plugins { intercept: None, query_logger: None, prewarmer: None,
                 table_access: Some(crate::config::TableAccess { enabled: true, tables: tables.iter().map(|t| t.as_str().unwrap().to_string()).collect() }) });
         }
+        if let Some(qs) = v["intercept"].as_array() {
+            settings.query_parser_enabled = true;
+            let mut queries = std::collections::BTreeMap::new();
+            for (i, q) in qs.iter().enumerate() {
+                queries.insert(format!("q{}", i), crate::config::Query { query: q.as_str().unwrap().to_string(),
+                    schema: vec![vec!["c".to_string(), "text".to_string()]], result: vec![vec!["intercepted".to_string()]] });
+            }
+            let mut plugins = settings.plugins.clone().unwrap_or(crate::config::Plugins { intercept: None, table_access: None, query_logger: None, prewarmer: None });
+            plugins.intercept = Some(crate::config::Intercept { enabled: true, queries });
+            settings.plugins = Some(plugins);
+        }
         if v["query_parser"].as_bool() == Some(true) { settings.query_parser_enabled = true; settings.query_parser_read_write_splitting = true; }
         let pool = ConnectionPool {
             databases: Arc::new(vec![pools]), addresses: Arc::new(vec![addrs]),
@@ -331,7 +346,8 @@ pub(crate) mod verif_probe {
         let (mut a, a_task) = connect_client(&db, &usern, csmap.clone(), &shutdown_tx);
         if read_until_ready(&mut a).await.is_none() { return json!({"error": "client A could not log in"}); }
         // forget what the backends saw during validation / startup
-        { let mut l = log.lock(); l.reqs.clear(); l.phase = 1; }
+        { let mut l = log.lock(); l.reqs.clear(); l.phase = 1;
+          if let Some(sts) = v["statuses"].as_array() { l.statuses = sts.iter().map(|x| x.as_u64().unwrap() as u8).collect(); } }
         let mut a_out: Vec<u8> = vec![];
         if let Some(steps) = v["steps"].as_array() {
             for st in steps {
@@ -680,6 +696,49 @@ pub(crate) mod verif_probe {
                     let shards: Vec<Vec<usize>> = cp.addresses.iter().map(|s| s.iter().map(|a| a.shard).collect()).collect();
                     json!({"validated": validated, "mirrors": mirrors, "address_shards": shards, "settings_shards": cp.settings.shards,
                            "databases": cp.databases.len()})
+                }))
+            }
+            "capacity_probe" => {
+                // real from_config with user.pool_size = n, then n+extra concurrent checkouts against a live reference backend:
+                // how many are held at once?
+                let rt = tokio::runtime::Builder::new_multi_thread().worker_threads(2).enable_all().build().unwrap();
+                let vv = v.clone();
+                Some(rt.block_on(async move {
+                    let listener = TcpListener::bind("127.0.0.1:0").await.unwrap();
+                    let port = listener.local_addr().unwrap().port();
+                    let log: SharedLog = Arc::new(Mutex::new(RefLog::default()));
+                    tokio::spawn(ref_postgres(listener, log.clone(), 0));
+                    let mut cfg = crate::config::Config::default();
+                    cfg.general.validate_config = false;
+                    cfg.general.connect_timeout = 400;
+                    let db = format!("verif_cap_{}", std::time::SystemTime::now().duration_since(std::time::UNIX_EPOCH).unwrap().as_nanos());
+                    let mut pool = crate::config::Pool::default();
+                    pool.shards.clear();
+                    pool.shards.insert("0".to_string(), crate::config::Shard { database: "db".to_string(), mirrors: None,
+                        servers: vec![crate::config::ServerConfig { host: "127.0.0.1".to_string(), port, role: Role::Primary }] });
+                    let n = vv["pool_size"].as_u64().unwrap() as u32;
+                    let mut user = User::default();
+                    user.username = "u".to_string();
+                    user.password = Some("pw".to_string());
+                    user.pool_size = n;
+                    pool.users.insert("0".to_string(), user);
+                    cfg.pools.insert(db.clone(), pool);
+                    crate::config::verif_probe::set_config(cfg);
+                    let csm: ClientServerMap = Arc::new(Mutex::new(HashMap::new()));
+                    if let Err(e) = ConnectionPool::from_config(csm).await { return json!({"error": format!("{:?}", e)}); }
+                    let cp = match get_pool(&db, "u") { Some(p) => p, None => return json!({"error": "pool missing"}) };
+                    let extra = vv["extra"].as_u64().unwrap_or(2) as u32;
+                    let mut held = vec![];
+                    for _ in 0..(n + extra) {
+                        match timeout(Duration::from_millis(1500), cp.databases[0][0].get()).await {
+                            Ok(Ok(c)) => held.push(c),
+                            _ => break,
+                        }
+                    }
+                    let max_held = held.len();
+                    let conns = log.lock().conns;
+                    drop(held);
+                    json!({"pool_size": n, "held_at_once": max_held, "backend_connections": conns})
                 }))
             }
             "reload_pools" => {
